@@ -119,7 +119,8 @@ def _specs() -> Dict[str, Dict[str, Any]]:
     specs["C13"] = {
         "id": "C13", "stream": "callgraph", "profile": callgraph, "props": ["C13"], "level": "exploration",
         "batches": [{"name": "histories", "args": {}, "runs": {"quick": 220, "thorough": 30000}},
-                    {"name": "big", "args": {"big": True}, "runs": {"quick": 12, "thorough": 1500}}],
+                    {"name": "big", "args": {"big": True}, "runs": {"quick": 12, "thorough": 1500}},
+                    {"name": "huge", "args": {"huge": True}, "runs": {"quick": 0, "thorough": 6}}],
         "rule": cg_rule, "assumptions": cg_assume,
         "expected_probes": ["second_build", "build_after_another_ranks_build", "more_than_127_events",
                             "more_than_127_kernels_under_one_operator", "backward_linking_checked",
